@@ -52,10 +52,10 @@ def run(ctx):
                     lines.append("rel %d" % slot)
         lines += ["relall", "quiesce"]
     # longer random programs
-    for _ in range(10 if ctx.quick else 100):
+    for _ in range(10 if ctx.quick else 1500):
         lines.append("scenario")
         live = 0
-        for _ in range(rng.randint(3, 10)):
+        for _ in range(rng.randint(3, 10) if ctx.quick else rng.randint(3, 25)):
             k = rng.choice(sorted(KINDS))
             if live < 6 and rng.random() < 0.7:
                 ok = not (KINDS[k] and rng.random() < 0.4)
